@@ -496,6 +496,10 @@ HResumeOK(r) == \A i \in 1 .. Len(r.resume) :
                    /\ e.from \in 1 .. Len(r.cfg.blocks)
                    /\ [j \in 1 .. Len(e.objs) |-> <<e.objs[j][1], e.objs[j][2]>>] = Flat(r.cfg.blocks, e.from)
                    /\ ErrCls(e.err) = ErrCls(SuffixErr(r.cfg, e.from))
+                   \* offsets reported by the resumed scanner count from where it started (recorded as start + reported)
+                   /\ ("offs" \in DOMAIN e) => \A j \in 1 .. Len(e.offs) :
+                         /\ e.offs[j][1] = OffA(r.cfg, e.objs[j][1])
+                         /\ e.offs[j][2] = OffA(r.cfg, IF e.objs[j][1] = e.from THEN e.from ELSE e.objs[j][1] - 1)
 
 RunWhy(r) ==
   (IF HPrefixOK(r.cfg, r.H) THEN {} ELSE {"order: delivered objects are not a prefix of the file's objects"}) \cup
